@@ -9,17 +9,43 @@ open _root_.Throughput
 def okNum (q : Rat) : Bool :=
   q = 0 || (decide (Dbl.pow2 (-500) ≤ Dbl.qabs q) && decide (Dbl.qabs q ≤ Dbl.pow2 500) && decide (Dbl.fl q = q))
 
+def getResult (j : Json) : Except String RResult := do
+  let k ← j.getObjValAs? String "k"
+  match k with
+  | "pair" => return .pair (← getNat j "w") (← getStr j "unit")
+  | "dict" =>
+    let w ← getOptNat j "w"
+    let unit ← getOptStr j "unit"
+    let tput ← match j.getObjVal? "tput" with
+      | .ok (Json.str "absent") => pure none
+      | .ok Json.null => pure (some none)
+      | .ok (Json.str s) => do pure (some (some (← parseRat s)))
+      | _ => throw "bad tput entry"
+    return .dict w unit tput
+  | "other" => return .other
+  | "failed" => return .failed
+  | _ => throw "unknown result kind"
+
+/-- a sample either with its fields, or (`"result"` present) as executor time stamps + the runner's result -/
 def getSample (j : Json) : Except String (Nat × TSample) := do
   let k ← getNat j "task"
   let abs ← getRat j "abs"
   let rel ← getRat j "rel"
   let period ← getRat j "period"
-  let ops ← getNat j "ops"
-  let unit ← getStr j "unit"
   let normal ← getBool j "normal"
-  let tput ← getOptRat j "tput"
-  if !(okNum abs && okNum rel && okNum period) || ops ≥ 2 ^ 63 then throw "out-of-domain"
-  return (k, { abs, rel, period, ops, unit, normal, tput })
+  if !(okNum abs && okNum rel && okNum period) then throw "out-of-domain"
+  match j.getObjVal? "result" with
+  | .ok rj =>
+    let r ← getResult rj
+    let s := sampleOf { abs, rel, period, normal } r
+    if s.ops ≥ 2 ^ 63 then throw "out-of-domain"
+    return (k, s)
+  | .error _ =>
+    let ops ← getNat j "ops"
+    let unit ← getStr j "unit"
+    let tput ← getOptRat j "tput"
+    if ops ≥ 2 ^ 63 then throw "out-of-domain"
+    return (k, { abs, rel, period, ops, unit, normal, tput })
 
 def outJson (o : Out) : Json :=
   arr [ratStr o.abs, ratStr o.rel, toJson o.normal, optRat o.value, str o.unit]
